@@ -120,6 +120,7 @@ GREET = [
     L("EHLO-noarg", b"EHLO\r\n"),
     L("EHLO-nsreject", b"EHLO other\r\n", NS=se(554, "5.7.1", b"go away")),
     L("EHLO-nserr", b"EHLO other\r\n", NS=er(b"backend down")),
+    L("EHLO-nsreject-noenh", b"EHLO other\r\n", NS=se(554, "0.0.0", b"no service")),
     L("ehlo-lower", b"ehlo  two words\r\n", NS="ok"),
 ]
 MAIL = [
@@ -133,6 +134,9 @@ MAIL = [
     L("MAIL-unkparam", b"MAIL FROM:<s@x.org> FOO=1\r\n"),
     L("MAIL-reject", b"MAIL FROM:<s@x.org>\r\n", MAIL=se(550, "5.1.0", b"no")),
     L("MAIL-err", b"MAIL FROM:<s@x.org>\r\n", MAIL=er(b"db")),
+    L("MAIL-reject-noenh", b"MAIL FROM:<s@x.org>\r\n", MAIL=se(550, "0.0.0", b"sender rejected")),
+    L("MAIL-reject-empty", b"MAIL FROM:<s@x.org>\r\n", MAIL=se(550, "5.7.1", b"")),
+    L("MAIL-reject-lines", b"MAIL FROM:<s@x.org>\r\n", MAIL=se(451, "0.0.0", b"first\n\nthird")),
     L("MAIL-utf8", b"MAIL FROM:<s@x.org> SMTPUTF8\r\n", MAIL="ok"),
     L("MAIL-dsn", b"mail from:<s@x.org> RET=hdrs ENVID=a+2Bb\r\n", MAIL="ok"),
     L("MAIL-auth", b"MAIL FROM:<s@x.org> AUTH=<> BODY=8bitmime\r\n", MAIL="ok"),
@@ -144,6 +148,8 @@ RCPT = [
     L("RCPT-bad", b"RCPT TO:<nodomain>\r\n"),
     L("RCPT-reject", b"RCPT TO:<r@x.org>\r\n", RCPT=se(550, "5.1.1", b"unknown user")),
     L("RCPT-tmperr", b"RCPT TO:<r@x.org>\r\n", RCPT=er(b"later")),
+    L("RCPT-reject-noenh", b"RCPT TO:<r@x.org>\r\n", RCPT=se(553, "0.0.0", b"no")),
+    L("RCPT-reject-empty", b"RCPT TO:<r@x.org>\r\n", RCPT=se(550, "5.1.1", b"a\n")),
     L("RCPT-notify", b"RCPT TO:<" + A + b"> NOTIFY=SUCCESS,FAILURE ORCPT=rfc822;o+40x\r\n", RCPT="ok"),
     L("RCPT-badparam", b"RCPT TO:<" + A + b"> NOTIFY=MAYBE\r\n"),
     L("RCPT-noto", b"RCPT <" + A + b">\r\n"),
@@ -204,6 +210,9 @@ AUTH = [
 TLSL = [
     ("STARTTLS-ok", lambda c, rng: c.starttls()),
     ("STARTTLS-inject", lambda c, rng: c.starttls(b"MAIL FROM:<injected@x>\r\nRCPT TO:<inj")),
+    # a whole injected prelude: if the plaintext buffer survived the upgrade these would run inside TLS
+    ("STARTTLS-inject-ehlo", lambda c, rng: c.starttls(b"EHLO inj.example\r\nMAIL FROM:<injected@x>\r\nRCPT TO:<injrcpt@x>\r\n")),
+    ("STARTTLS-inject-lhlo", lambda c, rng: c.starttls(b"LHLO inj.example\r\nMAIL FROM:<injected@x>\r\n")),
 ]
 
 ALPHABET = GREET + MAIL + RCPT + DATA + BDAT + MISC + AUTH
@@ -266,7 +275,7 @@ def random_walk(cfg, rng, n):
     for _ in range(n):
         r = rng.random()
         if tls_left and rng.random() < 0.12:
-            x = rng.choice(["STARTTLS-ok", "STARTTLS-inject"]); tls_left = 0
+            x = rng.choice(["STARTTLS-ok", "STARTTLS-inject", "STARTTLS-inject-lhlo" if lmtp else "STARTTLS-inject-ehlo"]); tls_left = 0
             greeted = mail = False; nr = 0
         elif not greeted and r < 0.6:
             x = "LHLO" if lmtp else rng.choice(["EHLO", "EHLO", "HELO"])
